@@ -7,7 +7,7 @@ PROPERTY = "C05"
 BUDGET = {"quick": 900, "thorough": 3000}
 namespaces = hsys.namespaces
 real_namespace = common.real_namespace
-GOALS = ["producer left output pending and woke the I/O loop", "producer paused on the high watermark and was released", "select() implementation",
+GOALS = ["application blocked between writes", "long-poll served by the second worker", "producer left output pending and woke the I/O loop", "producer paused on the high watermark and was released", "select() implementation",
          "poll() implementation", "second request chained after the first", "pre-empted schedule explored"]
 ASSUMPTIONS = [
     "the poll timeout is infinite: select()/poll() return only when a descriptor is ready (the simulated select ignores the timeout argument)",
@@ -16,6 +16,15 @@ ASSUMPTIONS = [
 ]
 STUBS = C04.STUBS
 SIZES = (1, 40, 200)
+
+
+def _d20(inp, obs, label=""):
+    """recorded finding D20, second face: with send_bytes > 1, output of less than send_bytes bytes pending while a request is running makes
+    the channel writable without being flushed - the I/O loop polls in a busy loop until more output arrives"""
+    return label.startswith("the I/O loop does not busy-poll") and bool(inp["send_bytes"] > 1)
+
+
+KNOWN = {"D20-send-bytes-above-watermark-deadlock": _d20}
 
 
 def BOUNDS(tier):
@@ -27,6 +36,10 @@ def BOUNDS(tier):
 
 def jobs(tier):
     js = []
+    for poll in (False, True):
+        js.append(dict(name="%s:write_block:r1:k2" % ("poll" if poll else "select"), poll=poll, mode="write_block", nreq=1, k=2,
+                       P=1, gran="sync", sizes=(1, 200) if tier == "quick" else SIZES))
+        js.append(dict(name="%s:dep" % ("poll" if poll else "select"), poll=poll, mode="dep", nreq=1, k=1, P=0 if tier == "quick" else 1, gran="sync", sizes=(1,)))
     for poll in (False, True):
         for mode in ("write", "gen"):
             for nreq in (1, 2):
@@ -55,11 +68,27 @@ def make_inputs(job):
                 gran=job["gran"])
 
 
-def make_app(sizes, mode, log):
+def make_app(sizes, mode, log, gate=None):
+    from wsx import sched
+
     def app(environ, start_response):
         log.append(environ["PATH_INFO"])
         total = sum(sizes)
         pieces = [bytes([97 + i]) * n for i, n in enumerate(sizes)]
+        if mode == "dep":
+            # a long-poll: /wait is answered only once /post has been executed (on another connection)
+            if environ["PATH_INFO"] == "/wait":
+                sched.block_until(lambda: "/post" in log, "app.wait-for-post")
+            start_response("200 OK", [("Content-Length", "1")])
+            return [b"z"]
+        if mode == "write_block":
+            write = start_response("200 OK", [("Content-Length", str(total))])
+            write(pieces[0])
+            gate["written"] = len(pieces[0])
+            sched.block_until(lambda: gate.get("go", False), "app.blocked-between-writes")
+            for p in pieces[1:]:
+                write(p)
+            return []
         if mode == "write":
             write = start_response("200 OK", [("Content-Length", str(total))])
             for p in pieces:
@@ -72,12 +101,19 @@ def make_app(sizes, mode, log):
 
 def scenario(ns, inp):
     log = []
-    sysm = hsys.System(ns, make_app(inp["sizes"], inp["mode"], log),
-                       adj_kw=dict(threads=1, asyncore_use_poll=inp["poll"], send_bytes=inp["send_bytes"], outbuf_high_watermark=inp["watermark"]),
+    gate = {}
+    sysm = hsys.System(ns, make_app(inp["sizes"], inp["mode"], log, gate),
+                       adj_kw=dict(threads=2 if inp["mode"] == "dep" else 1, asyncore_use_poll=inp["poll"], send_bytes=inp["send_bytes"],
+                                   outbuf_high_watermark=inp["watermark"]),
                        P=inp["P"], yield_funcs=None if inp.get("gran") == "line" else set())
     try:
         data = b"".join(b"GET /%d HTTP/1.1\r\n\r\n" % (i + 1) for i in range(inp["nreq"]))
-        conn = sysm.connect([data])
+        conn2 = None
+        if inp["mode"] == "dep":
+            conn = sysm.connect([b"GET /wait HTTP/1.1\r\n\r\n"])
+            conn2 = sysm.connect([b"GET /post HTTP/1.1\r\n\r\n"], addr=("10.0.0.2", 5001))
+        else:
+            conn = sysm.connect([data])
         if inp["acc0"] is not None:
             orig = conn.send
             state = [True]
@@ -89,6 +125,14 @@ def scenario(ns, inp):
                 return orig(d)
             conn.send = send
         sysm.run()
+        mid = None
+        if inp["mode"] == "write_block":
+            # the application is blocked between two writes: what it has written must already be with the client
+            chs = sysm.channels()
+            mid = dict(pending=[c.total_outbufs_len for c in chs], wire_len=len(conn.wire()), written=gate.get("written"), spinning=sysm.s.spinning)
+            gate["go"] = True
+            sysm.s.spinning = False
+            sysm.run()
         chans = sysm.channels()
         blocked = sysm.s.blocked()
         waiting_on_watermark = [c for c in chans if len(c.outbuf_lock.waiters) > 0]
@@ -96,7 +140,8 @@ def scenario(ns, inp):
                    pending=[c.total_outbufs_len for c in chans], queued=[len(c.requests) for c in chans],
                    waiters=[(c.total_outbufs_len, len(c.outbuf_lock.waiters)) for c in chans],
                    dq=len(sysm.srv.task_dispatcher.queue), pipe_writes=sum(p.writes for p in sysm.osh.pipes),
-                   blocked_selects=sysm.sel.blocked_calls, preempt=sysm.s.preempt, closed=conn.closed, spinning=sysm.s.spinning)
+                   blocked_selects=sysm.sel.blocked_calls, preempt=sysm.s.preempt, closed=conn.closed, spinning=sysm.s.spinning, mid=mid,
+                   wire2=bytes(conn2.wire()) if conn2 is not None else None)
     finally:
         sysm.close()
     return obs
@@ -106,6 +151,20 @@ def oracle(inp, obs):
     out = [("no thread dies with an exception (%r)" % (obs["exc"],), not obs["exc"]),
            ("I/O loop and worker are alive", "io" in obs["live"] and any(n.startswith("waitress-") for n in obs["live"]))]
     out.append(("the I/O loop does not busy-poll without making progress", not obs["spinning"]))
+    if inp["mode"] == "dep":
+        f1, _, r1 = C04.split(obs["wire"])
+        f2, _, r2 = C04.split(obs["wire2"])
+        out.append(("two requests on two connections with two workers are both served although one waits for the other (calls %r)" % (obs["calls"],),
+                    len(f1) == 1 and len(f2) == 1 and r1 == b"" and r2 == b""))
+        out.append(("no queued request is left unserviced", all(q == 0 for q in obs["queued"]) and obs["dq"] == 0))
+        return out
+    if obs["mid"] is not None:
+        m = obs["mid"]
+        # send_bytes is a buffering threshold: less than send_bytes may legitimately wait for more output
+        out.append(("while the application is blocked between two writes, what it has written so far is delivered, except for a tail "
+                    "shorter than send_bytes (pending %r)" % (m["pending"],),
+                    all(bool(p < inp["send_bytes"]) for p in m["pending"])))
+        out.append(("the I/O loop does not busy-poll without making progress while the application is blocked", not m["spinning"]))
     finals, interims, rest = C04.split(obs["wire"])
     total = sum(inp["sizes"])
     out.append(("at quiescence (infinite poll timeout) every accepted request has its whole response delivered (%d of %d)" % (len(finals), inp["nreq"]),
@@ -121,6 +180,10 @@ def oracle(inp, obs):
 
 def goals(cin, cobs):
     out = ["poll() implementation" if cin["poll"] else "select() implementation"]
+    if cobs["mid"] is not None:
+        out.append("application blocked between writes")
+    if cin["mode"] == "dep" and len(cobs["calls"]) == 2:
+        out.append("long-poll served by the second worker")
     if cobs["pipe_writes"] > cin["nreq"]:
         out.append("producer left output pending and woke the I/O loop")
     if cobs["preempt"]:
